@@ -17,6 +17,7 @@ import (
 	"time"
 
 	"github.com/oauth2-proxy/oauth2-proxy/v7/pkg/apis/options"
+	"github.com/oauth2-proxy/oauth2-proxy/v7/pkg/clock"
 	"github.com/vmihailenco/msgpack/v5"
 )
 
@@ -184,7 +185,53 @@ func vC03JarOverlap(t *testing.T, out *vEmitter) {
 	}
 }
 
+// vC03SlowLogin: the time a user takes at the identity provider.  The server-side bound on a login's CSRF cookie is the
+// age limit of every signed cookie, cookie-expire (cookie-csrf-expire is the Max-Age the BROWSER is given): a callback
+// carrying the login's own state and cookie completes iff it arrives within cookie-expire of the start, whatever
+// cookie-refresh is set to.  The proxy's clock (pkg/clock) is moved, not the wall clock.
+func vC03SlowLogin(t *testing.T, out *vEmitter) {
+	for _, perReq := range []bool{false, true} {
+		for _, refresh := range []time.Duration{0, time.Minute, 10 * time.Second} {
+			for _, expire := range []time.Duration{168 * time.Hour, 5 * time.Minute} {
+				perReq, refresh, expire := perReq, refresh, expire
+				e := vTryNewEnv(t, vEnvCfg{oidc: true, mod: func(o *options.Options) {
+					o.Cookie.CSRFPerRequest = perReq
+					o.Cookie.Refresh = refresh
+					o.Cookie.Expire = expire
+					o.Cookie.CSRFExpire = 15 * time.Minute
+					o.Providers[0].OIDCConfig.InsecureSkipNonce = true
+				}})
+				if e == nil {
+					out.Stat("c03_slow_login_config_rejected", 1)
+					continue
+				}
+				for _, took := range []time.Duration{2 * time.Second, 2 * time.Minute, 14 * time.Minute, 16 * time.Minute} {
+					b := e.newBrowser("https://app.example.com")
+					clock.Set(time.Now().Add(-took))
+					l := b.start("/x")
+					clock.Reset()
+					e.idp.stdToken("user@example.com", l.Nonce, nil)
+					cb := b.callback(l.State, "code")
+					issued := e.sessionCookieSet(cb)
+					want := took < expire
+					out.Obs("slow-login", true, vL(vBool(perReq), vI(int64(refresh/time.Second)), vI(int64(expire/time.Second)), vI(int64(took/time.Second)), vI(int64(cb.Status)), vBool(issued)))
+					out.Stat("c03_slow_logins", 1)
+					det := map[string]interface{}{"csrf_per_request": perReq, "cookie_refresh": refresh.String(), "cookie_expire": expire.String(), "cookie_csrf_expire": "15m0s",
+						"time_at_identity_provider": took.String(), "status": cb.Status, "session": issued}
+					if want && !issued {
+						out.Violation("callback/own-login-rejected", "a callback carrying the unmodified state and CSRF cookie of one login was refused", det)
+					}
+					if !want && issued {
+						out.Violation("callback/session-without-matching-login", "the callback issued a session although the login's CSRF cookie was older than cookie-expire", det)
+					}
+				}
+			}
+		}
+	}
+}
+
 func driveC03(t *testing.T, out *vEmitter) {
+	defer vC03SlowLogin(t, out)
 	defer vC03JarOverlap(t, out)
 	type combo struct{ perReq, enc, pkce, redis bool }
 	var combos []combo
